@@ -67,6 +67,15 @@ def gen_world(seed, wi):
             "exome": exome}
 
 
+OTHER_PARAMS = {
+    "indelpost": ["false", "False", "0"], "threshold": ["0.4", "0.6"], "min_coverage": ["2", "8"],
+    "min_quality": ["5", "20"], "min_mapq": ["5", "30"], "cn_parsimony": ["0.4", "0.6"], "cn_diff": ["8", "11"],
+    "cn_fit": ["1.5", "0.75"], "cn_pce_penalty": ["1.5"], "cn_fusion_left": ["0.4", "0.6"],
+    "cn_fusion_right": ["0.2", "0.3"], "cn_max": ["10"], "major_novel": ["20", "22"], "minor_miss": ["1.4", "1.6"],
+    "minor_add": ["1.1", "0.9"], "minor_phase": ["0.3", "0.5"], "male": ["true"], "debug_novel": ["true"],
+}
+
+
 def gen_plan(rng, tier, i, seed):
     cfg = TIERS[tier]
     if tier == "thorough" and i % 60 == 11:
@@ -99,6 +108,13 @@ def gen_plan(rng, tier, i, seed):
     if rng.random() < 0.25:
         # few phasing variables: the minor model down-samples the phase records (order matters there)
         params["minor_phase_vars"] = rng.choice(["8", "20", "40"])
+    if rng.random() < 0.2:
+        # database indels counted from the CIGARs instead of realigned: another evidence payload in the archive
+        params["indelpost"] = rng.choice(["false", "False", "0"])
+    if rng.random() < 0.5:
+        # any other model parameter: the replay gets the same --param list and must end the same way
+        for n in rng.sample(sorted(OTHER_PARAMS), rng.randint(1, 3)):
+            params[n] = rng.choice(OTHER_PARAMS[n])
     cn = None
     if rng.random() < 0.15 or (fault == "failing_gene" and rng.random() < 0.5):
         # (with a user-supplied structure the gene nobody sequenced must be refused on replay as well)
